@@ -1,9 +1,17 @@
 package chain
 
 import (
+	"crypto/ecdsa"
 	"encoding/base64"
+	"encoding/hex"
+	"encoding/json"
 	"fmt"
 	"strings"
+
+	"github.com/cosmos/cosmos-sdk/crypto/keys/secp256k1"
+	"github.com/dvsekhvalnov/jose2go/base64url"
+	ethcrypto "github.com/ethereum/go-ethereum/crypto"
+	"github.com/multiformats/go-multibase"
 
 	didkeeper "github.com/SaoNetwork/sao/x/did/keeper"
 
@@ -85,6 +93,9 @@ func (e *Event) Normalize() {
 	}
 	if e.SigMode == "kidspoof" && e.Signer == e.Owner {
 		e.SigMode = "ok" // the owner's kid on the owner's own signature is simply a valid signature
+	}
+	if e.SigMode == "kidspoof" && isSidDoc(e.Signer) && sidOfDoc(e.Signer) == e.Owner {
+		e.SigMode = "ok" // a document of the owner's own DID under the owner's DID: a valid header
 	}
 	e.Cseg = strings.Split(e.Commit, "|")
 }
@@ -171,6 +182,10 @@ type marshaler interface{ Marshal() ([]byte, error) }
 
 // sign produces the JWS for a proposal according to the event's signer/sigmode.
 func (c *Chain) sign(e *Event, p marshaler) saotypes.JwsSignature {
+	if isSidDoc(e.Signer) && e.SigMode != "none" {
+		payload, _ := p.Marshal()
+		return c.signSid(e, payload)
+	}
 	d := c.DidByName(e.Signer)
 	if d == nil || e.SigMode == "none" {
 		return saotypes.JwsSignature{}
@@ -214,7 +229,7 @@ func (c *Chain) Msg(e *Event) sdk.Msg {
 	case "Claim":
 		return &nodetypes.MsgClaimReward{Creator: c.addr(e.Creator)}
 	case "PayAddr":
-		return &didtypes.MsgUpdatePaymentAddress{Creator: c.addr(e.Creator), AccountId: "cosmos:" + ChainID + ":" + c.addr(e.Acc), Did: c.Concrete(e.Did)}
+		return &didtypes.MsgUpdatePaymentAddress{Creator: c.addr(e.Creator), AccountId: c.accountIdOf(e.Acc), Did: c.Concrete(e.Did)}
 	case "Store":
 		p := saotypes.Proposal{Owner: c.Concrete(e.Owner), Provider: c.addr(e.Gw), GroupId: "g", Duration: uint64(e.Dur), Replica: int32(e.Replica), Timeout: int32(e.Timeout), Alias: e.Alias, DataId: c.dataConcrete(e.Data), CommitId: c.commitConcrete(e.Commit), Cid: ValidCid, Size_: uint64(e.Size), Operation: uint32(e.Op), ReadonlyDids: c.didsConcrete(e.Ro), ReadwriteDids: c.didsConcrete(e.Rw), PaymentDid: c.Concrete(e.PayDid)}
 		return &saotypes.MsgStore{Creator: c.addr(e.Creator), Provider: c.addr(e.Provider), Proposal: p, JwsSignature: c.sign(e, &p)}
@@ -371,13 +386,103 @@ func (c *Chain) sid(name string, ts uint64) *sidInfo {
 	if s, ok := c.sids[name]; ok {
 		return s
 	}
-	keys := []*didtypes.PubKey{{Name: "authentication", Value: "key-" + name}, {Name: "keyAgreement", Value: "agree-" + name}}
+	keys := sidDocKeys(name)
 	doc, _ := didkeeper.CalculateDocId(keys, ts)
-	s := &sidInfo{Name: name, Keys: keys, T0: ts, DocId: doc}
+	t0 := ts
+	if c.App != nil {
+		// a process that did not create the DID (restarted replica) finds it on chain by its key
+		want := keys[0].Value
+		for _, d := range c.App.DidKeeper.GetAllSidDocument(c.Ctx) {
+			if len(d.Keys) > 0 && d.Keys[0].Value == want {
+				doc, t0 = d.VersionId, 0
+			}
+		}
+	}
+	s := &sidInfo{Name: name, Keys: keys, T0: t0, DocId: doc}
 	c.sids[name] = s
 	c.bind(name, "did:sid:"+doc)
 	c.names[doc] = name // the bare document id projects to the same symbolic name
 	return s
+}
+
+// sidDocPriv is the signing key of the sid document with the symbolic name doc ("s1" = root document of s1,
+// "s1_v2" = the document added by its second rotation). Deterministic, so that every process derives the same keys.
+func sidDocPriv(doc string) *secp256k1.PrivKey {
+	return secp256k1.GenPrivKeyFromSecret([]byte("sid-doc-key:" + doc))
+}
+
+// sidDocKeys: the key set of a sid document as the did module stores it: multibase(base58btc) of the multicodec
+// prefix + key bytes (0xe7 0x01 secp256k1 authentication key, 0xec 0x01 x25519 key-agreement key).
+func sidDocKeys(doc string) []*didtypes.PubKey {
+	auth, _ := multibase.Encode(multibase.Base58BTC, append([]byte{0xe7, 0x01}, sidDocPriv(doc).PubKey().Bytes()...))
+	agree, _ := multibase.Encode(multibase.Base58BTC, append([]byte{0xec, 0x01}, sidDocPriv("agree:" + doc).PubKey().Bytes()[1:]...))
+	return []*didtypes.PubKey{{Name: "authentication", Value: auth}, {Name: "keyAgreement", Value: agree}}
+}
+
+// sidOfDoc: "s1_v2" -> "s1".
+func sidOfDoc(doc string) string {
+	if i := strings.Index(doc, "_v"); i > 0 {
+		return doc[:i]
+	}
+	return doc
+}
+
+// isSidDoc: the name of a sid document (s<digits> or s<digits>_v<digits>).
+func isSidDoc(n string) bool {
+	n = sidOfDoc(n)
+	if len(n) < 2 || n[0] != 's' {
+		return false
+	}
+	for _, r := range n[1:] {
+		if r < '0' || r > '9' {
+			return false
+		}
+	}
+	return true
+}
+
+// sidDocId: the on-chain id of the sid document with the symbolic name doc ("" if it is not on chain). Found by its
+// key, so a process that did not create the document finds it too.
+func (c *Chain) sidDocId(doc string) string {
+	if v, ok := c.concr[doc]; ok {
+		return strings.TrimPrefix(v, "did:sid:")
+	}
+	want := sidDocKeys(doc)[0].Value
+	for _, d := range c.App.DidKeeper.GetAllSidDocument(c.Ctx) {
+		if len(d.Keys) > 0 && d.Keys[0].Value == want {
+			return d.VersionId
+		}
+	}
+	return ""
+}
+
+// signSid: a JWS made with the key of the sid document e.Signer. The protected header's kid is
+//   did:sid:<D>?version-id=<document id of e.Signer>#authentication
+// where D is the signer's own DID (sigmode ok / stale) or the proposal owner's DID (sigmode kidspoof: the header claims
+// the owner, the version-id points at the signer's document).
+func (c *Chain) signSid(e *Event, payload []byte) saotypes.JwsSignature {
+	docId := c.sidDocId(e.Signer)
+	if docId == "" {
+		return saotypes.JwsSignature{} // the document was never put on chain: nothing to refer to
+	}
+	did := "did:sid:" + c.sidDocId(sidOfDoc(e.Signer))
+	if e.SigMode == "kidspoof" {
+		if isSidDoc(e.Owner) {
+			did = "did:sid:" + c.sidDocId(e.Owner)
+		} else {
+			did = c.Concrete(e.Owner)
+		}
+	}
+	hdr, _ := json.Marshal(map[string]string{"alg": "ES256K", "kid": did + "?version-id=" + docId + "#authentication"})
+	protected := base64url.Encode(hdr)
+	if e.SigMode == "stale" {
+		payload = append([]byte("other-payload:"), payload...)
+	}
+	sig, err := sidDocPriv(e.Signer).Sign([]byte(protected + "." + base64url.Encode(payload)))
+	if err != nil {
+		return saotypes.JwsSignature{}
+	}
+	return saotypes.JwsSignature{Protected: protected, Signature: base64url.Encode(sig)}
 }
 
 // blockTime is the header time of the current block (what the fixed code compares proofs with).
@@ -407,7 +512,24 @@ func (c *Chain) bindingMsg(e *Event) sdk.Msg {
 		message = fmt.Sprintf("Link this account to your did: %s\nTimestamp: %d", "did:sid:0000other", ts-100000)
 	}
 	sig := ""
-	if target != nil && e.SigMode != "none" {
+	if isEthAcc(accName) {
+		// an Ethereum account (eip155): EIP-191 personal_sign over the message, checked by public-key recovery
+		accountId = ethAccountId(accName)
+		c.bind(accName, accountId)
+		signer := ethKey(accName)
+		if e.SigMode == "wrongkey" {
+			signer = ethKey(accName + "-other")
+		}
+		sig = "0x"
+		if e.SigMode != "none" {
+			hash := ethcrypto.Keccak256([]byte("\u0019Ethereum Signed Message:\n" + fmt.Sprint(len(message)) + message))
+			bz, _ := ethcrypto.Sign(hash, signer)
+			bz[64] += 27
+			sig = "0x" + hex.EncodeToString(bz)
+		} else {
+			sig = "0x" + hex.EncodeToString(make([]byte, 65)) // a well-formed length, no signature in it
+		}
+	} else if target != nil && e.SigMode != "none" {
 		signer := target
 		if e.SigMode == "wrongkey" {
 			signer = c.Acc(e.Creator)
@@ -433,6 +555,28 @@ func (c *Chain) bindingMsg(e *Event) sdk.Msg {
 	}
 }
 
+// Ethereum accounts "e1", "e2", ...: deterministic keys; the CAIP-10 id is eip155:1:<lower-case hex address>.
+func isEthAcc(n string) bool {
+	return len(n) >= 2 && n[0] == 'e' && strings.Trim(n[1:], "0123456789") == ""
+}
+
+func ethKey(n string) *ecdsa.PrivateKey {
+	k, _ := ethcrypto.ToECDSA(ethcrypto.Keccak256([]byte("eth-account-key:" + n)))
+	return k
+}
+
+func ethAccountId(n string) string {
+	return "eip155:1:" + strings.ToLower(ethcrypto.PubkeyToAddress(ethKey(n).PublicKey).Hex())
+}
+
+// accountIdOf: the CAIP-10 account id of a named account (cosmos account on this chain, or Ethereum account).
+func (c *Chain) accountIdOf(n string) string {
+	if isEthAcc(n) {
+		return ethAccountId(n)
+	}
+	return "cosmos:" + ChainID + ":" + c.addr(n)
+}
+
 // didUpdateMsg: key rotation of sid e.Did by e.Creator: accounts in e.Tx are removed, accounts in
 // e.Datas are kept (updated); e.Amount = timestamp offset; e.Commit = past seed.
 func (c *Chain) didUpdateMsg(e *Event) sdk.Msg {
@@ -442,7 +586,7 @@ func (c *Chain) didUpdateMsg(e *Event) sdk.Msg {
 	if v, ok := c.App.DidKeeper.GetSidDocumentVersion(c.Ctx, s.DocId); ok {
 		s.Ver = len(v.VersionList)
 	}
-	keys := []*didtypes.PubKey{{Name: "authentication", Value: fmt.Sprintf("key-%s-v%d-%d", e.Did, s.Ver, ts)}}
+	keys := sidDocKeys(fmt.Sprintf("%s_v%d", e.Did, s.Ver))[:1]
 	doc, _ := didkeeper.CalculateDocId(keys, ts)
 	c.bind(fmt.Sprintf("%s_v%d", e.Did, s.Ver), doc)
 	var remove []string
